@@ -305,6 +305,51 @@ def run_fuzz_input(binary, path):
     return r.returncode, (r.stdout + r.stderr)
 
 
+def asan_small(ctx, arg, rec):
+    """every short stream through the sanitizer builds: the coverage-guided campaigns reach the shortest inputs only by chance (libFuzzer prefers growing its corpus) and
+    the Python extension cannot see an overflow that stays inside malloc's rounding.  All streams of 1..max_len weights over a small alphabet (tiny values and the
+    extremes) are written as inputs of the fuzz target (structured layout of csrc/fuzz_mlw.c: mode, distribution, length, two parameters, one byte per weight) and executed
+    once each by both builds (round-trip oracle and ASan/UBSan inside the target)."""
+    import itertools
+
+    ndebug, max_len = arg
+    try:
+        binary = extbuild.build_fuzzer(ndebug)
+    except extbuild.BuildError as e:
+        raise HarnessError(str(e))
+    work = tempfile.mkdtemp(prefix="c07asan-")
+    try:
+        corpus = os.path.join(work, "corpus")
+        os.makedirs(corpus)
+        k = 0
+        for n in range(1, max_len + 1):
+            for dist, alphabet in ((0, range(5)), (4, range(2))):  # distribution 0: weight = byte % 5 - 2; distribution 4: +-255
+                if dist == 4 and n > 6:
+                    continue
+                for combo in itertools.product(alphabet, repeat=n):
+                    open(os.path.join(corpus, "s%06d" % k), "wb").write(bytes([0, dist, (n - 1) & 0xFF, (n - 1) >> 8, 0, 0]) + bytes(combo))
+                    k += 1
+        art = os.path.join(work, "art-")
+        r = subprocess.run([binary, corpus, "-runs=0", "-artifact_prefix=" + art, "-rss_limit_mb=3000"], capture_output=True, text=True, timeout=1800)
+        out = r.stdout + r.stderr
+        rec.case(k)
+        rec.cls("asan-small-ndebug" if ndebug else "asan-small-debug")
+        rec.nontrivial.add("asan-small:%s:%d" % (ndebug, max_len))
+        rec.exhaustive = True
+        arts = [f for f in os.listdir(work) if f.startswith("art-")]
+        if r.returncode != 0 or arts:
+            if not arts:
+                raise HarnessError("fuzz target exited %d without artifact:\n%s" % (r.returncode, out[-1500:]))
+            data = open(os.path.join(work, arts[0]), "rb").read()
+            tail = [l for l in out.splitlines() if "ORACLE-FAILURE" in l or "ERROR: AddressSanitizer" in l or "runtime error" in l or "SUMMARY" in l][:4]
+            kind = "oracle" if any("ORACLE-FAILURE" in l for l in tail) else "sanitizer"
+            rec.violation(Violation("C07/fuzz/%s" % kind, "; ".join(tail)[:600], dict(kind="fuzz", ndebug=ndebug, data=data.hex())))
+    finally:
+        import shutil
+
+        shutil.rmtree(work, ignore_errors=True)
+
+
 def fuzz(ctx, arg, rec):
     idx, ndebug, seconds, seed_corpus = arg
     try:
@@ -359,6 +404,7 @@ def parts(ctx):
     ps += [Part("streams%02d" % i, streams, (i, 500 if q else 6000)) for i in range(8)]
     ps += [Part("volumes%02d" % i, volumes, (i, 400 if q else 6000)) for i in range(8)]
     ps += [Part("rejects", rejects, 60 if q else 2000)]
+    ps += [Part("asan_small_ndebug", asan_small, (True, 5 if q else 7)), Part("asan_small_debug", asan_small, (False, 5 if q else 7))]
     secs = 10 if q else 300
     ps += [Part("fuzz_ndebug_empty", fuzz, (0, True, secs, False)), Part("fuzz_debug_seeded", fuzz, (1, False, secs, True))]
     if not q:
